@@ -21,6 +21,7 @@ func checkC12(c *Ctx) {
 	c.Rule("C12/R4", "the beta/t path works in the log domain: nothing reachable from the t distribution's CDF/PDF calls math.Gamma (which overflows for the degrees of freedom large samples produce)")
 
 	c.Rule("C12/R5", "returned functions are re-entrant: no closure created in internal/stats writes a variable it captured (an inverse CDF that keeps its bracketing step between calls drifts to ±Inf after enough calls)")
+	c.Rule("C12/R10", "a sample is refused for zero variance only when its variance is exactly 0: every float comparison guarding a return of ErrZeroVariance is with the constant 0 (a tolerance is an absolute quantity and breaks scale invariance)")
 	c.Rule("C12/R9", "the normal quantile function is location-scale: every non-constant return of NormalDist.InvCDF is z·Sigma + Mu")
 	c.Rule("C12/R8", "order statistics do not reorder their argument: inside a value-receiver method of Sample every sort acts on a copy of the values (Copy(), a made or appended-to-nil slice)")
 	c.Rule("C12/R7", "the geometric means accumulate in the log domain: no loop-carried value in stats.GeoMean / Sample.GeoMean is multiplied by a raw data element on each iteration")
@@ -37,6 +38,7 @@ func checkC12(c *Ctx) {
 	c12GeoMean(c, p, "C12/R7")
 	c12NoReorder(c, p, "C12/R8")
 	c12LocationScale(c, p)
+	c12ZeroVarianceExact(c, p, "C12/R10")
 }
 
 // c12LocationScale (C12/R9): the normal quantile function is a location-scale transform of the standard one. Every return
